@@ -191,6 +191,9 @@ class SubCheck:
     shrink: bool = True
     doc: str = ""
     exhaustive: bool = False
+    machine: Optional[Callable] = None   # (rec, tier) -> hypothesis RuleBasedStateMachine subclass (stateful sub-check);
+    #                                       its failing history is stored as case {"trace": [...]} and replayed through `run`
+    steps: dict = field(default_factory=lambda: {"quick": 30, "thorough": 60})
 
 
 # --------------------------------------------------------------------------- small helpers
